@@ -63,11 +63,14 @@ type shardedLimiter struct {
 	quota     map[string]int32     // upstream cluster -> quota an allocate call is answered with
 	cfg       map[string]schemaCfg // upstream cluster -> schema
 	misrouted int64                // allocate calls that reached the leader of another shard
+	topo      []int                // shard -> index of its leader; len(topo) = the shard count the service publishes (re-sharding changes it)
+	served    map[string][]int64   // upstream cluster -> times of the allocate calls that were answered with a quota
 }
 
 func newShardedLimiter(n int) *shardedLimiter {
-	s := &shardedLimiter{quota: map[string]int32{}, cfg: map[string]schemaCfg{}}
+	s := &shardedLimiter{quota: map[string]int32{}, cfg: map[string]schemaCfg{}, served: map[string][]int64{}}
 	for i := 0; i < n; i++ {
+		s.topo = append(s.topo, i)
 		l := &leaderStub{shard: i, healthy: 1, svc: s}
 		l.srv = bed.NewServer(http.HandlerFunc(l.serve))
 		s.leaders = append(s.leaders, l)
@@ -79,6 +82,43 @@ func (s *shardedLimiter) close() {
 	for _, l := range s.leaders {
 		l.srv.Close()
 	}
+}
+
+func (s *shardedLimiter) setTopology(t []int) {
+	s.mu.Lock()
+	s.topo = append([]int(nil), t...)
+	s.mu.Unlock()
+}
+
+func (s *shardedLimiter) topology() []int {
+	s.mu.Lock()
+	defer s.mu.Unlock()
+	return append([]int(nil), s.topo...)
+}
+
+// servedSince counts the allocate calls for an upstream that were answered with a quota at or after t.
+func (s *shardedLimiter) servedSince(upstream string, t int64) int {
+	s.mu.Lock()
+	defer s.mu.Unlock()
+	n := 0
+	for _, at := range s.served[upstream] {
+		if at >= t {
+			n++
+		}
+	}
+	return n
+}
+
+// okStreakSince returns the number of consecutive answered heartbeats at the end of the log that were received at or after
+// t, and the time of the first of them.
+func (l *leaderStub) okStreakSince(t int64) (n int, since int64) {
+	l.mu.Lock()
+	defer l.mu.Unlock()
+	for i := len(l.hb) - 1; i >= 0 && l.hb[i].ok && l.hb[i].at >= t; i-- {
+		n++
+		since = l.hb[i].at
+	}
+	return
 }
 
 func (s *shardedLimiter) setQuota(upstream string, q int32) {
@@ -112,9 +152,13 @@ func (l *leaderStub) serve(w http.ResponseWriter, req *http.Request) {
 	switch {
 	case req.URL.Path == clientsets.ServerInfoUrl:
 		// endpoint discovery keeps working (any member of the service answers it, the leader table does not change)
-		info := &proxyv1alpha1.RateLimitServerInfo{Server: l.srv.URL, ID: fmt.Sprintf("limiter-%d", l.shard), ShardCount: int32(len(l.svc.leaders)), ManagedShards: []int32{int32(l.shard)}}
-		for _, x := range l.svc.leaders {
-			info.Endpoints = append(info.Endpoints, proxyv1alpha1.EndpointInfo{Leader: x.srv.URL, ShardID: int32(x.shard)})
+		topo := l.svc.topology()
+		info := &proxyv1alpha1.RateLimitServerInfo{Server: l.srv.URL, ID: fmt.Sprintf("limiter-%d", l.shard), ShardCount: int32(len(topo))}
+		for shard, li := range topo {
+			info.Endpoints = append(info.Endpoints, proxyv1alpha1.EndpointInfo{Leader: l.svc.leaders[li].srv.URL, ShardID: int32(shard)})
+			if li == l.shard {
+				info.ManagedShards = append(info.ManagedShards, int32(shard))
+			}
 		}
 		writeJSON(200, info)
 	case req.URL.Path == clientsets.HeartBeatUrl:
@@ -135,11 +179,12 @@ func (l *leaderStub) serve(w http.ResponseWriter, req *http.Request) {
 		in := &proxyv1alpha1.RateLimitCondition{}
 		_ = json.Unmarshal(body, in)
 		up := in.Spec.UpstreamCluster
-		if limitutil.GetShardID(up, len(l.svc.leaders)) != l.shard {
-			atomic.AddInt64(&l.svc.misrouted, 1)
+		if topo := l.svc.topology(); topo[limitutil.GetShardID(up, len(topo))] != l.shard {
+			atomic.AddInt64(&l.svc.misrouted, 1) // may happen for a moment right after a re-sharding
 		}
 		l.svc.mu.Lock()
 		q, cfg := l.svc.quota[up], l.svc.cfg[up]
+		l.svc.served[up] = append(l.svc.served[up], bed.Now())
 		l.svc.mu.Unlock()
 		out := allocReply(in, allocItem(cfg, q, 0))
 		out.TypeMeta = metav1.TypeMeta{Kind: "RateLimitCondition", APIVersion: proxyv1alpha1.SchemeGroupVersion.String()}
@@ -150,15 +195,23 @@ func (l *leaderStub) serve(w http.ResponseWriter, req *http.Request) {
 }
 
 func heartbeatPhase(r *vkit.R, base *vkit.Rand) {
-	n := r.N(4, 24)
+	n := r.N(6, 24)
 	var wg sync.WaitGroup
 	for i := 0; i < n; i++ {
 		g := base.Sub(i)
 		dead := i % 2 // which shard's leader goes down: both directions in every run
+		kind := i % 6
 		wg.Add(1)
 		go func() {
 			defer wg.Done()
-			runHeartbeatCase(r, g, dead)
+			switch kind {
+			case 4:
+				runReshardCase(r, g, true)
+			case 5:
+				runReshardCase(r, g, false)
+			default:
+				runHeartbeatCase(r, g, dead)
+			}
 		}()
 	}
 	wg.Wait()
@@ -386,5 +439,223 @@ func runHeartbeatCase(r *vkit.R, g *vkit.Rand, dead int) {
 	r.Count("hb_allocate_calls_misrouted", int(atomic.LoadInt64(&svc.misrouted)))
 	if r.WantSample() {
 		r.Sample(map[string]interface{}{"kind": "real-heartbeat-case", "case": witness()})
+	}
+}
+
+// runReshardCase: the limiter service is RE-SHARDED while the gateway runs (the published shard count changes, so an
+// upstream cluster moves to another shard, util.GetShardID(name, count)); the old and the new shard differ in health.
+//
+//	toDead:    1 shard (leader H, healthy) -> 2 shards, upstream U now on shard 1 whose leader D answers every heartbeat and
+//	           allocate call with an error, upstream V stays on shard 0 (H). After the hysteresis U must be reported not
+//	           ready and be on its local limit; V keeps its quota. Then D recovers with a new quota for U.
+//	toHealthy: 2 shards (U on shard 1 = D, healthy) -> 1 shard (H) while D goes down for good: U is served by a healthy
+//	           leader that grants it a new quota, which must take effect.
+//
+// Probes are judged as in runHeartbeatCase (readiness read before and after). Watchdogs are inconclusive except for two
+// observations at the stub: (toDead) D has failed >= 10 heartbeats in a row over >= 8 s and U is still reported ready and
+// not on its local limit; (toHealthy) since the re-sharding H, which leads U's shard now and grants U's new quota, has
+// answered >= 10 heartbeats in a row over >= 8 s and U is still reported not ready (and therefore sits on its local limit).
+func runReshardCase(r *vkit.R, g *vkit.Rand, toDead bool) {
+	svc := newShardedLimiter(2)
+	defer svc.close()
+	H, D := svc.leaders[0], svc.leaders[1]
+	if toDead {
+		svc.setTopology([]int{0})
+		atomic.StoreInt32(&D.healthy, 0)
+	}
+	ctx, cancel := context.WithCancel(context.Background())
+	defer cancel()
+	cs := clientsets.NewClientSetsWithRestConfig(ctx, H.srv.URL+","+D.srv.URL, "c09", &rest.Config{Host: H.srv.URL})
+
+	mk := func(wantShardOf2 int) *hbUpstream {
+		salt := g.Intn(1 << 20)
+		for i := 0; ; i++ {
+			name := fmt.Sprintf("c09-rs-%d-%d.example", salt, i)
+			if limitutil.GetShardID(name, 2) != wantShardOf2 {
+				continue
+			}
+			G := int32(g.Range(8, 30))
+			L := int32(g.Range(1, int(G)-3))
+			u := &hbUpstream{name: name, shard: wantShardOf2, cfg: schemaCfg{Strategy: string(proxyv1alpha1.GlobalAllocateLimit), Type: "maxinflight", L: L, G: G}}
+			for u.q0 == 0 || u.q0 == L {
+				u.q0 = int32(g.Range(1, int(G)))
+			}
+			for u.q2 == 0 || u.q2 == L || u.q2 == u.q0 {
+				u.q2 = int32(g.Range(1, int(G)))
+			}
+			u.granted = map[int]bool{int(u.q0): true}
+			return u
+		}
+	}
+	U, V := mk(1), mk(0)
+	for _, u := range []*hbUpstream{U, V} {
+		svc.mu.Lock()
+		svc.cfg[u.name], svc.quota[u.name] = u.cfg, u.q0
+		svc.mu.Unlock()
+		u.lim = flowcontrols.NewUpstreamLimiter(ctx, u.name, "", cs)
+		u.lim.Sync(proxyv1alpha1.FlowControl{Schemas: []proxyv1alpha1.FlowControlSchema{u.cfg.schema()}})
+		u.lim.ResetLimiter(flowcontrol.RemoteFlowControls)
+	}
+	defer func() {
+		for _, u := range []*hbUpstream{U, V} {
+			flowcontrols.VerifStop(u.lim)
+			for _, c := range u.lim.AllFlowControls() {
+				c.Stop()
+			}
+		}
+	}()
+
+	var trace []hbObs
+	lastObs := map[string]hbObs{}
+	violated := false
+	var reshardedAt int64
+	kindName := "resharded-to-dead-leader"
+	if !toDead {
+		kindName = "resharded-to-healthy-leader"
+	}
+	witness := func() interface{} {
+		return map[string]interface{}{"case": kindName, "trace": trace,
+			"U": map[string]interface{}{"upstream": U.name, "shardOf2": 1, "schema": U.cfg, "quotaBefore": U.q0, "quotaAfter": U.q2},
+			"V": map[string]interface{}{"upstream": V.name, "shardOf2": 0, "schema": V.cfg, "quota": V.q0}}
+	}
+	probe := func(phase string, u *hbUpstream) hbObs {
+		topo := svc.topology()
+		sh := limitutil.GetShardID(u.name, len(topo))
+		leader := svc.leaders[topo[sh]]
+		o := hbObs{Phase: phase, Upstream: u.name, Shard: sh, LeaderUp: atomic.LoadInt32(&leader.healthy) != 0}
+		o.ReadyBefore = cs.IsReady(u.name)
+		fc := u.lim.GetOrDefault(schemaName)
+		n := 0
+		if p := vkit.Safely(func() {
+			for n < int(u.cfg.G)+5 && fc.TryAcquire() {
+				n++
+			}
+			for i := 0; i < n; i++ {
+				fc.Release()
+			}
+		}); p != nil {
+			r.Count("hb_admission_panics_not_judged", 1)
+			o.E = -1
+			return o
+		}
+		o.ReadyAfter = cs.IsReady(u.name)
+		o.E = n
+		if last, seen := lastObs[u.name]; !seen || last != o {
+			trace = append(trace, o)
+			lastObs[u.name] = o
+		}
+		r.Count("hb_probes", 1)
+		if violated {
+			return o
+		}
+		L, G := u.cfg.L, u.cfg.G
+		switch {
+		case n > int(G):
+			violated = true
+			r.Violation("C09/allocate-maxinflight/exceeds-global/real-heartbeat", fmt.Sprintf("max-in-flight local=%d global=%d, real client set, re-sharding: %d admitted at once for upstream %s in phase %s", L, G, n, u.name, phase), witness())
+		case !o.ReadyBefore && !o.ReadyAfter:
+			r.Count("hb_probes_not_ready", 1)
+			if n != int(L) {
+				violated = true
+				r.Violation("C09/allocate-maxinflight/fallback-not-local/not-ready",
+					fmt.Sprintf("max-in-flight local=%d global=%d, real client set, re-sharding: upstream %s reported not ready before and after the probe but the effective limit is %d (phase %s)", L, G, u.name, n, phase), witness())
+				break
+			}
+			// toHealthy observation: the leader that serves this upstream since the re-sharding is healthy and has been for a long time
+			if !toDead && u == U && reshardedAt != 0 {
+				if streak, since := leader.okStreakSince(reshardedAt); streak >= 10 && bed.Now()-since >= int64(8*time.Second) {
+					violated = true
+					r.Violation("C09/allocate-maxinflight/quota-not-applied/"+kindName+"-still-not-ready",
+						fmt.Sprintf("max-in-flight local=%d global=%d, real client set: the limiter service was re-sharded from 2 shards to 1; the leader that serves upstream %s since then has answered %d heartbeats in a row for %.1fs, yet the client set still reports the upstream not ready and the instance stays on its local limit instead of the quota %d that leader grants",
+							L, G, u.name, streak, float64(bed.Now()-since)/1e9, u.q2), witness())
+				}
+			}
+		case o.ReadyBefore && o.ReadyAfter:
+			r.Count("hb_probes_ready", 1)
+			if n != int(L) && !u.granted[n] {
+				violated = true
+				r.Violation("C09/allocate-maxinflight/fallback-not-local/failing-after-sync",
+					fmt.Sprintf("max-in-flight local=%d global=%d, real client set, re-sharding: effective limit %d of upstream %s is neither the local limit nor a quota the server ever granted (phase %s)", L, G, n, u.name, phase), witness())
+				break
+			}
+			if streak, since := leader.failedStreak(); toDead && u == U && reshardedAt != 0 && !o.LeaderUp && streak >= 10 && bed.Now()-since >= int64(8*time.Second) && n != int(L) {
+				violated = true
+				r.Violation("C09/allocate-maxinflight/fallback-not-local/"+kindName+"-still-ready",
+					fmt.Sprintf("max-in-flight local=%d global=%d, real client set: the limiter service was re-sharded from 1 shard to 2 and upstream %s now belongs to shard 1, whose leader has answered the last %d heartbeats in a row with an error, for %.1fs (the leader of shard 0 is healthy); the client set still reports the upstream ready before and after the probe and the instance still enforces the old shard's quota %d instead of the local limit",
+						L, G, u.name, streak, float64(bed.Now()-since)/1e9, n), witness())
+			}
+		}
+		return o
+	}
+	waitFor := func(phase string, d time.Duration, cond func(u, v hbObs) bool) bool {
+		deadline := time.Now().Add(d)
+		for time.Now().Before(deadline) && !violated {
+			u, v := probe(phase, U), probe(phase, V)
+			if !violated && cond(u, v) {
+				return true
+			}
+			time.Sleep(50 * time.Millisecond)
+		}
+		return false
+	}
+	readyWith := func(o hbObs, q int32) bool { return o.ReadyBefore && o.ReadyAfter && o.E == int(q) }
+	notReady := func(o hbObs) bool { return !o.ReadyBefore && !o.ReadyAfter }
+
+	r.Eval(1)
+	r.Distinct(vkit.Hash64(fmt.Sprintf("hb-reshard|%v|%+v|%+v|%d|%d", toDead, U.cfg, V.cfg, U.q0, U.q2)))
+	if !waitFor("startup", 40*time.Second, func(u, v hbObs) bool { return readyWith(u, U.q0) && readyWith(v, V.q0) }) {
+		if !violated {
+			r.Inconclusive("real client set, re-sharding case: the first granted quotas were not observed within 40 s")
+		}
+		return
+	}
+	// ---- re-sharding ----
+	if toDead {
+		svc.setTopology([]int{0, 1}) // D (down) leads the new shard 1
+		reshardedAt = bed.Now()
+		if !waitFor("resharded", 60*time.Second, func(u, v hbObs) bool { return notReady(u) }) {
+			if !violated {
+				r.Inconclusive("real client set, re-sharding case: the upstream that moved to the shard of a dead leader was never reported not ready within 60 s")
+			}
+			return
+		}
+		r.Count("hb_reshard_to_dead_reached_not_ready", 1)
+		waitFor("resharded-not-ready", 1000*time.Millisecond, func(u, v hbObs) bool { return false })
+		if violated {
+			return
+		}
+		if o := probe("resharded-survivor", V); readyWith(o, V.q0) {
+			r.Count("hb_survivor_kept_quota", 1)
+		}
+		svc.setQuota(U.name, U.q2)
+		U.granted[int(U.q2)] = true
+		atomic.StoreInt32(&D.healthy, 1)
+		if !waitFor("recovery", 60*time.Second, func(u, v hbObs) bool { return readyWith(u, U.q2) }) {
+			if !violated {
+				r.Inconclusive("real client set, re-sharding case: the quota granted by the recovered leader of the new shard was not observed within 60 s")
+			}
+			return
+		}
+		r.Count("hb_reshard_recoveries_observed", 1)
+		return
+	}
+	svc.setQuota(U.name, U.q2)
+	U.granted[int(U.q2)] = true
+	atomic.StoreInt32(&D.healthy, 0)
+	svc.setTopology([]int{0}) // everything is served by H now
+	reshardedAt = bed.Now()
+	if !waitFor("resharded", 60*time.Second, func(u, v hbObs) bool { return readyWith(u, U.q2) }) {
+		if !violated {
+			r.Inconclusive("real client set, re-sharding case: the quota granted by the healthy leader of the merged shard was not observed within 60 s")
+		}
+		return
+	}
+	r.Count("hb_reshard_to_healthy_quota_observed", 1)
+	// long enough for a stale "ready" to show its other face: the old leader D stays down past the hysteresis
+	waitFor("resharded-old-leader-down", 11*time.Second, func(u, v hbObs) bool { return false })
+	if !violated {
+		if o := probe("resharded-late", U); readyWith(o, U.q2) {
+			r.Count("hb_reshard_to_healthy_still_on_quota_after_hysteresis", 1)
+		}
 	}
 }
